@@ -676,12 +676,38 @@ func c14MentionedDepth(v ssa.Value, of *types.Named, found map[*types.Var]int, d
 				}
 			}
 		}
+		// a value produced by a same-module helper (parseInfoAndBitfield(spec)):
+		// what the helper's results are built from, one level per call
+		if c14MentionThroughCalls {
+			call, idx := (*ssa.Call)(nil), 0
+			switch x := e.V.(type) {
+			case *ssa.Call:
+				call = x
+			case *ssa.Extract:
+				call, _ = x.Tuple.(*ssa.Call)
+				idx = x.Index
+			}
+			if call != nil {
+				if h := call.Call.StaticCallee(); h != nil && h.Blocks != nil && kit.InModule(pkgOf(h)) && d < 10 {
+					for _, r := range returnsOf(h) {
+						if idx < len(r.Results) {
+							c14MentionedDepth(r.Results[idx], of, found, d+1)
+						}
+					}
+				}
+			}
+		}
 		for _, a := range e.Args {
 			visit(a, d+1)
 		}
 	}
 	visit(kit.Canon(v), depth)
 }
+
+// c14MentionThroughCalls makes c14Mentioned look into the results of module
+// helpers; enabled only where a constructor argument of the loader is related
+// to the Spec fields it is parsed from.
+var c14MentionThroughCalls bool
 
 func runC14Literals(c *kit.Ctx, k *keyer, t *c14Tables, specFields []*types.Var, fVersion *types.Var,
 	W map[string][]c14Row, oobWriters map[string][]c14Row) {
@@ -784,6 +810,8 @@ func runC14Literals(c *kit.Ctx, k *keyer, t *c14Tables, specFields []*types.Var,
 		panic(kit.AnchorError{Msg: "newTorrent call in loadExistingTorrent"})
 	}
 	specOfParam := map[int]map[*types.Var]bool{}
+	c14MentionThroughCalls = true
+	defer func() { c14MentionThroughCalls = false }()
 	for i, a := range loaderCall.Call.Args {
 		m := map[*types.Var]bool{}
 		c14Mentioned(a, t.spec, m, 0)
